@@ -271,7 +271,7 @@ class C20(Check):
         calls = [['evaluate', dataset(c, c['cols'])], ['explain']]
         if 'cols2' in c:
             calls += [['evaluate', dataset(c, c['cols2'])], ['explain']]
-        return [self.with_period(c, {'monitor': 'discrete-offline', 'ctor': 'split', 'vars': fml.VARS[:c['nv']], 'spec': text, 'calls': calls})]
+        return [self.with_period(c, {'monitor': 'discrete-offline', 'ctor': ('combined' if c['seed'] % 5 < 2 else 'split'), 'vars': fml.VARS[:c['nv']], 'spec': text, 'calls': calls})]
 
     def with_period(self, c, case):
         if c.get('period_ms'):
